@@ -490,7 +490,7 @@ func ruleCompletionPairing(c *Ctx, rule string, la *lockAnalysis, g *guardInfo) 
 	}
 	// the done channel is buffered and created where the tag is assigned
 	buffered := false
-	allInstrs(begin, func(i ssa.Instruction) {
+	deepInstrs(begin, 2, func(i ssa.Instruction) {
 		if mk, ok := i.(*ssa.MakeChan); ok {
 			if k, ok := constInt(mk.Size); ok && k >= 1 {
 				buffered = true
@@ -525,7 +525,7 @@ func ruleCompletionPairing(c *Ctx, rule string, la *lockAnalysis, g *guardInfo) 
 				}
 			}
 			h, _ := la.heldAt(st)
-			c.check(inc && fn == begin && h.hasClass(g.class), rule, fnKey(fn)+":cmdTag++", st.Pos(), "incremented by one under the mutex in beginCommand (tags unique)",
+			c.check(inc && isHelperOf(fn, begin, 2) && h.hasClass(g.class), rule, fnKey(fn)+":cmdTag++", st.Pos(), "incremented by one under the mutex in beginCommand (tags unique)",
 				"the tag counter is written other than by a locked increment in beginCommand: two commands can get the same tag")
 		})
 	}
@@ -552,7 +552,7 @@ func checkRemovalCompletes(c *Ctx, rule string, fn *ssa.Function, removal *ssa.C
 		}
 		cl := mc.Fn.(*ssa.Function)
 		// closure: calls completeCommand only on the `err != nil` edge of a captured result variable
-		gf := mustFlow(cl, facts{}, nil, func(f facts, b *ssa.BasicBlock, s int) facts { return f.with(valueEdgeFacts(b, s)...) })
+		gf := mustFlow(cl, facts{}, valueGen, func(f facts, b *ssa.BasicBlock, s int) facts { return f.with(valueEdgeFacts(b, s)...) })
 		allInstrs(cl, func(j ssa.Instruction) {
 			if call, ok := j.(*ssa.Call); ok && staticCallee(call) == complete {
 				fs, _ := gf.at(call)
@@ -614,7 +614,7 @@ func checkRemovalCompletes(c *Ctx, rule string, fn *ssa.Function, removal *ssa.C
 		}
 		return s
 	}, func(s countSet, b *ssa.BasicBlock, i int) (countSet, bool) { return s, true })
-	gf := mustFlow(fn, facts{}, nil, func(f facts, b *ssa.BasicBlock, s int) facts { return f.with(valueEdgeFacts(b, s)...) })
+	gf := mustFlow(fn, facts{}, valueGen, func(f facts, b *ssa.BasicBlock, s int) facts { return f.with(valueEdgeFacts(b, s)...) })
 	nret := 0
 	for _, ret := range returnsOf(fn) {
 		if !reaches(removal.Block(), ret.Block()) || counts[ret.Block()] == nil {
@@ -700,6 +700,16 @@ func ruleSnapshotCopyOnWrite(c *Ctx, rule string) {
 				if call, ok := fa.X.(*ssa.Call); ok && callKey(call) == "(*SelectedMailbox).copy" {
 					return
 				}
+				// the object handed out by a helper: the helper must have made the
+				// copy (and published it) itself
+				if call, ok := fa.X.(*ssa.Call); ok {
+					if cal := staticCallee(call); cal != nil && inModule(cal) && cal.Blocks != nil {
+						n++
+						key := fmt.Sprintf("%s:store SelectedMailbox.%s#%d", fnKey(fn), r.Field.Name(), countKey(c, rule, fnKey(fn)+":store SelectedMailbox."+r.Field.Name())+1)
+						c.check(helperReturnsFreshSnapshot(cal), rule, key, st.Pos(), "the object comes from "+fnKey(cal)+", which replaces c.mailbox by a fresh copy before returning it",
+							"the object modified here comes from "+fnKey(cal)+", which can return the published snapshot itself: a goroutine holding the snapshot reads it without any lock")
+					}
+				}
 				return
 			}
 			n++
@@ -731,7 +741,7 @@ func ruleContReqFIFO(c *Ctx, rule string) {
 		return
 	}
 	appends := false
-	allInstrs(reg, func(i ssa.Instruction) {
+	deepInstrs(reg, 2, func(i ssa.Instruction) {
 		if st, ok := i.(*ssa.Store); ok {
 			if r, ok := fieldOf(st.Addr); ok && r.is("Client", "contReqs") {
 				if call, ok := st.Val.(*ssa.Call); ok {
@@ -746,31 +756,57 @@ func ruleContReqFIFO(c *Ctx, rule string) {
 	})
 	c.check(appends, rule, "registerContReq appends at the tail", reg.Pos(), "c.contReqs = append(c.contReqs, …)", "continuation requests are no longer queued at the tail")
 	// the request handed the server's "+": element 0 of c.contReqs
-	head := false
+	head, other := false, false
 	var pos = rd.Pos()
-	allInstrs(rd, func(i ssa.Instruction) {
+	deepInstrs(rd, 2, func(i ssa.Instruction) {
 		ia, ok := i.(*ssa.IndexAddr)
 		if !ok {
 			return
 		}
-		lr, ok := loadedField(ia.X)
+		base := ia.X
+		if sl, ok := base.(*ssa.Slice); ok {
+			base = sl.X
+		}
+		lr, ok := loadedField(base)
 		if !ok || !lr.is("Client", "contReqs") {
 			return
 		}
-		// is this element's ContinuationRequest the one that gets Done()?
+		// is this element read (as a whole, or its ContinuationRequest)?
+		read := false
 		for _, ref := range *ia.Referrers() {
-			if fa, ok := ref.(*ssa.FieldAddr); ok {
-				if r, _ := fieldOf(fa); r.Field.Name() == "ContinuationRequest" {
-					pos = ia.Pos()
-					if k, ok := constInt(ia.Index); ok && k == 0 {
-						head = true
-					} else {
-						head = false
+			switch x := ref.(type) {
+			case *ssa.FieldAddr:
+				if r, _ := fieldOf(x); r.Field.Name() == "ContinuationRequest" {
+					read = true
+				}
+			case *ssa.UnOp:
+				// a whole-element load that is not just moved to another slot of the queue
+				moved := true
+				for _, use := range *x.Referrers() {
+					if st, ok := use.(*ssa.Store); ok {
+						if _, toSlot := st.Addr.(*ssa.IndexAddr); toSlot {
+							continue
+						}
 					}
+					moved = false
+				}
+				if !moved {
+					read = true
 				}
 			}
 		}
+		if !read {
+			return
+		}
+		if k, ok := constInt(ia.Index); ok && k == 0 && ia.X == base {
+			head = true
+			pos = ia.Pos()
+		} else {
+			other = true
+			pos = ia.Pos()
+		}
 	})
+	head = head && !other
 	c.check(head, rule, "readContinueReq takes the oldest request", pos, "the continuation goes to c.contReqs[0]",
 		"the server's continuation request is not given to the oldest waiting command: with two commands waiting, the wrong one sends its payload and the other waits for ever")
 }
@@ -810,4 +846,50 @@ func returnsHolder(v, h ssa.Value, seen map[ssa.Value]bool) bool {
 		return returnsHolder(x.X, h, seen)
 	}
 	return false
+}
+
+// helperReturnsFreshSnapshot: every return of cal yields nil or the value of
+// Client.mailbox after a store of a fresh copy into it in cal.
+func helperReturnsFreshSnapshot(cal *ssa.Function) bool {
+	var fresh []*ssa.Store
+	allInstrs(cal, func(i ssa.Instruction) {
+		if st, ok := i.(*ssa.Store); ok {
+			if r, ok := fieldOf(st.Addr); ok && r.is("Client", "mailbox") {
+				switch v := st.Val.(type) {
+				case *ssa.Call:
+					if callKey(v) == "(*SelectedMailbox).copy" {
+						fresh = append(fresh, st)
+					}
+				case *ssa.Alloc:
+					fresh = append(fresh, st)
+				}
+			}
+		}
+	})
+	ok, n := true, 0
+	for _, r := range returnsOf(cal) {
+		if len(r.Results) == 0 {
+			return false
+		}
+		v := unspill(r.Results[0])
+		if isNilConst(v) {
+			continue
+		}
+		n++
+		good := false
+		for _, f := range fresh {
+			if f.Val == v {
+				good = true // returns the copy itself
+			}
+			if lr, isLoad := loadedField(v); isLoad && lr.is("Client", "mailbox") {
+				if ins, isIns := v.(ssa.Instruction); isIns && f.Block().Dominates(ins.Block()) && (f.Block() != ins.Block() || precedes(f, ins)) {
+					good = true
+				}
+			}
+		}
+		if !good {
+			ok = false
+		}
+	}
+	return ok && n > 0
 }
